@@ -172,7 +172,8 @@ def run_property(b, prop, tier, seed, targeted, oracle_sub, oracle_ok, known_pre
     stream = list(T.stream(seed, n_mut, n_rand))
     from . import smallprogs as SP
     small = list(SP.stream(seed, None))
-    cases = stream + list(targeted) + small
+    from . import declshapes as DS
+    cases = stream + list(targeted) + small + list(DS.stream())
     if tier != "quick":
         # thorough: single-token mutants of the targeted texts as well
         rng = random.Random(seed + 7)
